@@ -38,8 +38,8 @@ def _pauli_string(s):
     return m
 
 
-def make_block(w, j, b):
-    """block number j of the witness (matrices are a function of (seed, j) only)"""
+def make_block(w, j, b, name=None):
+    """block number j of the witness (matrices are a function of (seed, j) only); `name` / b["name"]: user-chosen name"""
     qutip, vqa = _impl()
     nq = w["nq"]
     d = 2 ** nq
@@ -47,16 +47,17 @@ def make_block(w, j, b):
     natives = [(g, [q]) for q in range(nq) for g in NATIVE_1Q]
     rng = np.random.default_rng([int(w.get("seed", 0)), j, 19])
     k, ini = b["kind"], bool(b["initial"])
+    name = name if name is not None else b.get("name")
     if k == "h":
-        return vqa.VQABlock(qutip.Qobj(_herm(rng, d), dims=dims), initial=ini)
+        return vqa.VQABlock(qutip.Qobj(_herm(rng, d), dims=dims), initial=ini, name=name)
     if k == "u":
         h = _herm(rng, d)
         ev, evec = np.linalg.eigh(h)
         u = evec @ np.diag(np.exp(-1j * ev)) @ evec.conj().T
-        return vqa.VQABlock(qutip.Qobj(u, dims=dims), is_unitary=True, initial=ini)
+        return vqa.VQABlock(qutip.Qobj(u, dims=dims), is_unitary=True, initial=ini, name=name)
     if k == "n":
         g, t = natives[j % len(natives)]
-        return vqa.VQABlock(g, targets=t, initial=ini, name=None)
+        return vqa.VQABlock(g, targets=t, initial=ini, name=name)
     if k == "p":
         if b.get("paulis") is not None:
             terms = [qutip.Qobj(_pauli_string(s), dims=dims) for s in b["paulis"]]
@@ -64,10 +65,10 @@ def make_block(w, j, b):
         else:
             terms = [qutip.Qobj(_herm(rng, d), dims=dims) for _ in range(b["nterms"])]
             const = qutip.Qobj(_herm(rng, d), dims=dims) if (j % 2 == 0 or not terms) else None
-        return vqa.VQABlock(vqa.ParameterizedHamiltonian(terms, const), initial=ini)
+        return vqa.VQABlock(vqa.ParameterizedHamiltonian(terms, const), initial=ini, name=name)
     if k == "f":
         H = qutip.Qobj(_herm(rng, d), dims=dims)
-        return vqa.VQABlock((lambda H: (lambda t: (-1j * t * H).expm()))(H), initial=ini)
+        return vqa.VQABlock((lambda H: (lambda t: (-1j * t * H).expm()))(H), initial=ini, name=name)
     raise ValueError("unknown block kind " + k)
 
 
@@ -385,9 +386,11 @@ def make_history(rng, nfree, nsteps=None, w=None):
     start = [round(rng.uniform(-3.0, 3.0), 4) for _ in range(nfree)]
     steps = []
     nsteps = nsteps or rng.randint(3, 6)
-    pattern = rng.choice(["descent", "sweep", "eval-then-jac", "mixed"] + (["config", "config", "layers"] if w is not None else []))
+    pattern = rng.choice(["descent", "sweep", "eval-then-jac", "mixed"] + (["config", "config", "layers", "refused", "refused"] if w is not None else []))
     if pattern in ("config", "layers"):
         return _make_config_history(rng, w, start, pattern)
+    if pattern == "refused":
+        return _make_refused_history(rng, w, start)
     for t in range(nsteps):
         st = {"fresh": False, "set": [], "op": "jac", "idx": None}
         if t > 0 and nfree:
@@ -483,6 +486,96 @@ def _make_config_history(rng, w, start, pattern):
     return {"container": rng.choice(["list", "array"]), "start": start, "steps": steps}
 
 
+# refused operations: calls that raise (or are no-ops for the configuration); afterwards the object must behave exactly as before
+REFUSED_OPS = ["add_block_dup", "add_block_auto", "add_none", "bad_cost_method", "short_vector", "bad_indices", "bad_initial",
+               "derivative_of_fixed"]
+
+
+def _rejected_spec(b):
+    """a block with the same number of parameters as `b` but another unitary"""
+    r = {k: v for k, v in b.items() if k != "name"}
+    if r.get("paulis"):
+        sub = {"X": "Y", "Y": "Z", "Z": "X", "I": "I"}
+        r["paulis"] = ["".join(sub[c] for c in s) for s in reversed(r["paulis"])]
+    return r
+
+
+def _make_refused_history(rng, w, start):
+    nb = len(w["blocks"])
+    auto = [j for j, b in enumerate(w["blocks"]) if b.get("name") == "U" + str(nb)]
+    steps = [{"fresh": False, "set": [], "op": rng.choice(["jac", "eval"]), "idx": None, "cfg": [], "pad": [], "refused": []}]
+    nf = len(start)
+    for t in range(1, rng.randint(3, 5)):
+        ops = []
+        for _ in range(rng.randint(1, 2)):
+            kind = rng.choice(["add_block_dup", "add_block_dup", "add_block_auto" if auto else "add_block_dup", "add_none",
+                               "bad_cost_method", "short_vector", "bad_indices", "bad_initial", "derivative_of_fixed"])
+            j = auto[0] if kind == "add_block_auto" else rng.randrange(nb)
+            ops.append({"op": kind, "like": j, "salt": 50 + 7 * t + j})
+        st = {"fresh": False, "set": [], "op": "jac" if rng.random() < 0.7 else rng.choice(["eval", "state"]), "idx": None,
+              "cfg": [], "pad": [], "refused": ops}
+        if nf and rng.random() < 0.3:
+            st["set"] = [[rng.randrange(nf), round(rng.uniform(-3.0, 3.0), 4)]]
+        if nf and st["op"] == "jac" and rng.random() < 0.3:
+            st["idx"] = sorted(rng.sample(range(nf), rng.randint(1, nf)))
+        steps.append(st)
+    return {"container": rng.choice(["list", "array"]), "start": start, "steps": steps}
+
+
+def run_refused(v, cw, op, x):
+    """execute one refused operation on the live object; -> (observed, expected) verdict strings"""
+    import contextlib, io
+    kind, j = op["op"], op.get("like", 0)
+    nf = nfree_of(cw)
+    try:
+        if kind in ("add_block_dup", "add_block_auto"):
+            b = cw["blocks"][j]
+            expected = "ValueError:Duplicate Block name"
+            name = None if kind == "add_block_auto" else v.blocks[j].name
+            v.add_block(make_block(cw, op["salt"], _rejected_spec(b), name=name) if name is not None
+                        else make_block(cw, op["salt"], _rejected_spec(b)))
+        elif kind == "add_none":
+            expected = "AttributeError:"
+            v.add_block(None)
+        elif kind == "bad_cost_method":
+            expected = "ValueError:Unrecognised cost method"
+            old = v.cost_method
+            v.cost_method = "EXPECTATION"
+            try:
+                v.evaluate_parameters(list(x))
+            finally:
+                v.cost_method = old
+        elif kind == "short_vector":
+            expected = "ValueError:Expected" if nf else "ok"
+            v.compute_jac(list(x)[:-1])
+        elif kind == "bad_indices":
+            expected = "ok:empty"
+            out = v.compute_jac(list(x), [nf + 3, -1, nf])
+            return ("ok:empty" if len(out) == 0 else f"ok:{len(out)} entries"), expected
+        elif kind == "bad_initial":
+            expected = "ValueError:"
+            with contextlib.redirect_stdout(io.StringIO()):
+                if op["salt"] % 2:
+                    v.optimize_parameters(initial="zeros", use_jac=True)
+                else:
+                    v.optimize_parameters(initial=[0.1] * (nf + 1), use_jac=True, layer_by_layer=True)
+        elif kind == "derivative_of_fixed":
+            fixed = [b for b in v.blocks if b.is_unitary or b.is_native_gate]
+            if not fixed:
+                return "skipped", "skipped"
+            expected = "ValueError:Can only take derivative"
+            fixed[0].get_unitary_derivative([0.3])
+        else:
+            return "unknown", "known"
+        return "ok", expected
+    except Exception as e:
+        return f"{type(e).__name__}:{str(e)}", expected
+
+
+def refused_matches(observed, expected):
+    return observed.startswith(expected)
+
+
 def run_history(w, hist, v=None):
     """execute the history on ONE object; yields (step index, step, copy of the current vector, result | exception,
     current configuration as a witness)"""
@@ -509,6 +602,7 @@ def run_history(w, hist, v=None):
             if i < len(x):
                 x[i] = val                               # in place: same container object as in the previous call
         cur = [float(a) for a in x]
+        verdicts = [(op, *run_refused(v, cur_w, op, cur)) for op in st.get("refused", [])]
         try:
             if st["op"] == "jac":
                 out = v.compute_jac(x, st["idx"]) if st.get("idx") is not None else v.compute_jac(x)
@@ -519,7 +613,7 @@ def run_history(w, hist, v=None):
                 out = v.get_final_state(x).full().ravel()
         except Exception as e:  # canonicalised by the caller
             out = e
-        yield t, st, cur, out, cur_w
+        yield t, st, cur, out, cur_w, verdicts, [b.name for b in v.blocks]
 
 
 
@@ -672,7 +766,11 @@ class C19(PropertyCheck):
                    "call returns on a fresh VQA object with a fresh vector (the model is a function of (blocks, layers, vector, "
                    "indices) only); likewise the public attributes num_layers, cost_method, cost_observable and the block list (add_block) "
                    "ARE the configuration: after assigning them every call must equal the call on a fresh VQA built with the current "
-                   "configuration (no memoised series/circuit may survive); checked on interleaved histories",
+                   "configuration (no memoised series/circuit may survive); a REFUSED call (add_block with a duplicate explicit or "
+                   "automatic name, add_block(None), evaluate_parameters under an unknown cost_method, a too short parameter vector, "
+                   "optimize_parameters with a bad `initial`, derivative of a fixed block) raises and leaves the configuration — block "
+                   "list, user gates, layers, cost — exactly as accepted before, out-of-range indices_to_compute are ignored; checked on "
+                   "interleaved histories against a fresh VQA built with the accepted configuration",
                    "observable cost mode (cost_method OBSERVABLE with cost_observable set); the theorem is about the real part of the "
                    "cost, which is the cost for a Hermitian observable (cost_real)",
                    "function blocks (types.FunctionType) are outside the property's class: compute_jac raises TypeError for them (modelled)"]
@@ -685,7 +783,8 @@ class C19(PropertyCheck):
             "Hamiltonian is degenerate there); parameter containers of different types / dtypes (lists and tuples of ints, integer / float32 / float16 / "
             "longdouble / object ndarrays, mixed lists, numpy scalars) and the jacobians requested by optimize_parameters(use_jac=True); every ordering of small Pauli-string sets (identity and constant terms included) as 3-4 terms of a "
             "ParameterizedHamiltonian; histories on one VQA object with one list/ndarray updated in place and public attributes "
-            "(num_layers, cost_method, cost_observable, add_block) assigned between interleaved "
+            "(num_layers, cost_method, cost_observable, add_block) assigned and refused operations (duplicate add_block, unknown "
+            "cost_method, short vectors, bad initial, out-of-range indices) executed between interleaved "
             "compute_jac / evaluate_parameters / get_final_state calls (each call = the call on a fresh object); every in-class case that returns is also "
             "re-evaluated numerically (propagators, derivative matrices, cost, jacobian values); "
             "non-trivial = at least one free parameter and (>= 2 series entries or a multi-parameter block)")
@@ -976,8 +1075,13 @@ class C19(PropertyCheck):
             nfree = nfree_of(w)
             if nfree == 0:
                 continue
-            hist = make_history(rng, nfree, w=w)
-            for t, st, cur, out, cw in run_history(w, hist):
+            if n % 5 == 1:      # a user-chosen name that the automatic name of the NEXT unnamed block will collide with
+                w = dict(w, blocks=[dict(b) for b in w["blocks"]])
+                w["blocks"][rng.randrange(len(w["blocks"]))]["name"] = "U" + str(len(w["blocks"]))
+                hist = _make_refused_history(rng, w, [round(rng.uniform(-3.0, 3.0), 4) for _ in range(nfree)])
+            else:
+                hist = make_history(rng, nfree, w=w)
+            for t, st, cur, out, cw, verdicts, names in run_history(w, hist):
                 enc, L, nf = enc_blocks(cw["blocks"]), cw["layers"], nfree_of(cw)
                 inp = {"nq": w["nq"], "layers": w["layers"], "blocks": enc_blocks(w["blocks"]), "seed": w.get("seed"),
                        "history": hist, "step": t}
@@ -985,6 +1089,17 @@ class C19(PropertyCheck):
                 res.case(inp, nontrivial=t > 0, tags=["history", "history-" + hist["container"], "history-op=" + st["op"]] +
                          (["history-cfg=" + c[0] for c in st.get("cfg", [])]))
                 fresh = build_vqa(cw)
+                badv = [(op, o, e) for op, o, e in verdicts if not refused_matches(o, e)]
+                if badv:
+                    res.disagree(inp, badv[0][2], badv[0][1], f"history step {t}: refused operation {badv[0][0]['op']} did not end as the "
+                                 "model of the refusals says", wit)
+                    break
+                if names != [b.name for b in fresh.blocks]:
+                    res.disagree(inp, [b.name for b in fresh.blocks], names, f"history step {t}: block list after the refused operations "
+                                 f"{[op['op'] for op, _, _ in verdicts]} differs from the accepted configuration", wit)
+                    break
+                for op, _, _ in verdicts:
+                    res.hist["refused=" + op["op"]] = res.hist.get("refused=" + op["op"], 0) + 1
                 try:
                     if st["op"] == "jac":
                         ref = np.atleast_1d(np.asarray(fresh.compute_jac(list(cur), st["idx"]) if st.get("idx") is not None
@@ -996,6 +1111,8 @@ class C19(PropertyCheck):
                 except Exception as e:
                     ref = e
                 cfgs = f" after assigning {st['cfg']}" if st.get("cfg") else ""
+                if st.get("refused"):
+                    cfgs += f" after the refused operations {[op['op'] for op in st['refused']]}"
                 if isinstance(out, Exception) or isinstance(ref, Exception):
                     a = classify_exc(out) if isinstance(out, Exception) else "ok"
                     b = classify_exc(ref) if isinstance(ref, Exception) else "ok"
@@ -1232,11 +1349,13 @@ class C19(PropertyCheck):
         if len(hist["start"]) != nfree_of(w):
             return False, "parameter vector of the wrong length (not an input of the property)"
         njac = 0
-        for t, st, cur, out, cw in run_history(w, hist):
+        for t, st, cur, out, cw, verdicts, names in run_history(w, hist):
             if not self.in_class(cw):
                 continue                                   # e.g. cost_method assigned to STATE: outside the property
             nfree = nfree_of(cw)
             cfgs = f", after assigning {st['cfg']}" if st.get("cfg") else ""
+            if st.get("refused"):
+                cfgs += f", after the refused operations {[(op['op'], op.get('like')) for op in st['refused']]}"
             if st["op"] != "jac":
                 if isinstance(out, Exception):
                     return True, f"history step {t} ({st['op']}{cfgs}) raised {type(out).__name__}: {out}"
@@ -1262,6 +1381,10 @@ class C19(PropertyCheck):
         for _ in range(20):
             w = pauli_witness(rng, rng.randint(0, 10 ** 4)) if rng.random() < 0.3 else self._random_witness(rng, maxblocks=3)
             if nfree_of(w):
+                if rng.random() < 0.25:
+                    w = dict(w, blocks=[dict(b) for b in w["blocks"]])
+                    w["blocks"][rng.randrange(len(w["blocks"]))]["name"] = "U" + str(len(w["blocks"]))
+                    return dict(w, history=_make_refused_history(rng, w, [round(rng.uniform(-3.0, 3.0), 4) for _ in range(nfree_of(w))]))
                 return dict(w, history=make_history(rng, nfree_of(w), w=w))
         return None
 
